@@ -163,6 +163,23 @@ def r_mat_orient(rep, f):
                 if bad:
                     rep.violation("R-MAT-ORIENT", key, "`%s` is assigned from `%s`: the index pair differs, so one operand enters transposed" % (tast.render(z), tast.render(bad[0])), z.get("sp"))
                     continue
+                # iterator form of the finite-difference loop: `for (row, (fp, f0)) in fp.iter().zip(f0.iter()).enumerate()`
+                enum_loop = next((p for p in reversed(parents) if p.get("k") == "For" and p["pat"].get("k") == "PTuple" and p["pat"]["pats"]
+                                  and p["pat"]["pats"][0].get("k") == "PBind" and p["pat"]["pats"][0].get("id") == mi[0]
+                                  and tast.contains(p["iter"], lambda q: q.get("k") == "MethodCall" and q.get("name") == "enumerate")), None)
+                if not reads and not vecs and enum_loop is not None:
+                    elems = {q["id"] for q in tast.find(enum_loop["pat"]["pats"][1:], lambda q: q.get("k") == "PBind")}
+                    used = tast.find(asg["r"], lambda q: q.get("k") == "Path" and q.get("id") in elems)
+                    loop = next((p for p in reversed(parents) if p.get("k") == "For" and p["pat"].get("id") == mi[1]), None)
+                    pert = tast.find(loop["body"], lambda q: q.get("k") in ("Assign", "AssignOp") and _vec_index(q["l"]) is not None and _vec_index(q["l"])[1] == mi[1]) if loop is not None else []
+                    if not used:
+                        rep.violation("R-MAT-ORIENT", key, "`%s` is not assigned from the elements enumerated with the row index `%s`" % (tast.render(z), mi[2][0]), z.get("sp"))
+                    elif d == "ivp::IVP::jac" and not pert:
+                        rep.violation("R-MAT-ORIENT", key, "finite-difference Jacobian: the column index `%s` is not the component that is perturbed in the enclosing loop" % mi[2][1], z.get("sp"))
+                    else:
+                        n_c += 1
+                        rep.ok("R-MAT-ORIENT", key, "row = enumerate index of the difference vectors, column = perturbed component")
+                    continue
                 if reads:
                     n_a += 1
                     rep.ok("R-MAT-ORIENT", key, "element-wise: %d matrix read(s) with the same (row, col) pair" % len(reads))
